@@ -382,18 +382,31 @@ class Interp(ExprMixin, CallMixin):
             return self.exec_body(st.body, fr)
         if t is False:
             return self.exec_body(st.orelse, fr)
+        # a two armed conditional is recorded under its positive condition: ``if not c: A else: B`` and ``if c: B else: A``
+        # (likewise != / is not / not in against == / is / in) give the same trace
+        body, orelse, test = st.body, st.orelse, st.test
+        POSITIVE = {'!=': '==', 'is not': 'is', 'not in': 'in'}
+        while orelse and isinstance(cond, Sym):
+            if cond.op == 'not':
+                cond = cond.args[0]
+                test = test.operand if isinstance(test, ast.UnaryOp) and isinstance(test.op, ast.Not) else test
+            elif cond.op == 'cmp' and cond.args[0] in POSITIVE:
+                cond = Sym('cmp', POSITIVE[cond.args[0]], *cond.args[1:])
+            else:
+                break
+            body, orelse = orelse, body
         node = Alt(cond, [], [], st)
         fr.emit(node)
         a = self.fork(fr, node.then)
         b = self.fork(fr, node.orelse)
         a.cond_depth += 1
         b.cond_depth += 1
-        self.refine_types(st.test, cond, a)
+        self.refine_types(test, cond, a)
         self.assume(cond, True, a)
         self.assume(cond, False, b)
         keys_before = self.key_snapshot()
         n_ret = len(fr.returns)
-        sa = self.exec_body(st.body, a)
+        sa = self.exec_body(body, a)
         if len(fr.returns) > n_ret:
             fr.return_marks.append((cond, n_ret, len(fr.returns)))
         keys_a = self.key_changes(keys_before)
@@ -405,7 +418,7 @@ class Interp(ExprMixin, CallMixin):
             if id(p) not in keys_before:
                 p.keys = {}
         keys_mid = self.key_snapshot()
-        sb = self.exec_body(st.orelse, b)
+        sb = self.exec_body(orelse, b)
         keys_b = self.key_changes(keys_mid)
         # merge: a key defined by either branch is visible afterwards (flagged "maybe" unless both define it)
         for p in self.parsers:
